@@ -38,6 +38,8 @@ type trCtx struct {
 	eqSeqb bool                           // comparisons as seqb a b (also against ""), not as nonempty
 	ints   map[string]bool                // integer locals (from the Atoi-with-default pattern)
 	preds  map[string]string              // keep-or-drop rune functions usable in strings.Map, Go name -> Coq name
+	callHook func(*ast.CallExpr) string   // string-valued calls the context knows (v.Prerelease() ...), "" otherwise
+	intHook  func(ast.Expr) string        // integer-valued expressions usable under %d, "" otherwise
 }
 
 func (c *trCtx) fail(format string, a ...any) string {
@@ -83,6 +85,11 @@ func (c *trCtx) expr(e ast.Expr) string {
 			return "(" + c.expr(x.X) + " ++ " + c.expr(x.Y) + ")"
 		}
 	case *ast.CallExpr:
+		if c.callHook != nil {
+			if v := c.callHook(x); v != "" {
+				return v
+			}
+		}
 		if se, ok := x.Fun.(*ast.SelectorExpr); ok {
 			if id, ok := se.X.(*ast.Ident); ok {
 				switch id.Name + "." + se.Sel.Name {
@@ -147,6 +154,8 @@ func (c *trCtx) expr(e ast.Expr) string {
 							out = append(out, c.expr(x.Args[arg]))
 						} else if id, ok := x.Args[arg].(*ast.Ident); ok && c.ints[id.Name] {
 							out = append(out, "(dec n_"+id.Name+")")
+						} else if c.intHook != nil && c.intHook(x.Args[arg]) != "" {
+							out = append(out, "(dec "+c.intHook(x.Args[arg])+")")
 						} else {
 							return c.fail("%%d of something that is not a translated integer variable")
 						}
